@@ -21,6 +21,18 @@ extern crate anytls_simnet as tokio;
 #[cfg(anytls_verif)]
 extern crate anytls_simrand as rand;
 
+// H2: named scheduling points; expands to nothing without the guard.
+#[cfg(anytls_verif)]
+macro_rules! vp {
+    ($name:literal) => {
+        ::anytls_simnet::sched::yield_point($name).await
+    };
+}
+#[cfg(not(anytls_verif))]
+macro_rules! vp {
+    ($name:literal) => {};
+}
+
 /// Client implementation
 pub mod client;
 /// Padding module for traffic obfuscation
